@@ -270,7 +270,7 @@ FireTimer(which) ==
      /\ (which = "rb" => st.pc \in {"W3", "OP"})
      /\ Emit(<<Stamp([k |-> "tm.fire", tid |-> tid], st.clk)>>)
      /\ script' = script \o Stim(at, n, [s |-> "fire", sel |-> "tid", tid |-> tid])
-     /\ st' = [st EXCEPT !.clk = Tick(@), !.cnt.idle = IF st.pc = "OP" THEN @ ELSE n, !.firedT = @ \cup {tid},
+     /\ st' = [st EXCEPT !.clk = Tick(@), !.cnt.idle = IF st.pc = "OP" THEN @ ELSE n, !.firedT = IF Bounded /\ MaxStale = 0 THEN @ ELSE @ \cup {tid},
                          !.wait.untilFired = @ \/ which = "until", !.wait.forFired = @ \/ which = "for",
                          !.wait.rbFired = @ \/ which = "rb"]
 
@@ -286,7 +286,7 @@ FireStale(tid) ==
          n == IF st.pc = "OP" THEN st.op.n ELSE st.cnt.idle + 1 IN
      /\ Emit(<<Stamp([k |-> "tm.fire", tid |-> tid], st.clk)>>)
      /\ script' = script \o Stim(at, n, [s |-> "fire", sel |-> "tid", tid |-> tid])
-     /\ st' = [st EXCEPT !.clk = Tick(@), !.nStale = @ + 1, !.firedT = @ \cup {tid}, !.op.n = IF backoff THEN @ + 1 ELSE @,
+     /\ st' = [st EXCEPT !.clk = Tick(@), !.nStale = @ + 1, !.firedT = IF Bounded /\ MaxStale = 0 THEN @ ELSE @ \cup {tid}, !.op.n = IF backoff THEN @ + 1 ELSE @,
                          !.cnt.idle = IF st.pc = "OP" /\ ~backoff THEN @ ELSE @ + 1]
 
 \* the wall clock is stepped (NTP, user) while the machine is blocked in an operation or in a select; the
@@ -551,7 +551,7 @@ P4b_Classify(draw) ==
 P4w_BackoffDone ==
   /\ st.pc = "OP" /\ st.op.kind = "idle"
   /\ Emit(<<Stamp([k |-> "tm.fire", tid |-> st.ids.tid], st.clk)>>)
-  /\ st' = [st EXCEPT !.pc = "P4a", !.clk = Tick(@), !.ck.attempt = @ + 1, !.firedT = @ \cup {st.ids.tid}]
+  /\ st' = [st EXCEPT !.pc = "P4a", !.clk = Tick(@), !.ck.attempt = @ + 1, !.firedT = IF Bounded /\ MaxStale = 0 THEN @ ELSE @ \cup {st.ids.tid}]
   /\ UNCHANGED script
 
 BodyDoc(a) == Has(a.body, "doc")
